@@ -149,6 +149,30 @@ pub fn run_status(case: &Case) -> Vec<i64> {
     })
 }
 
+// ---- the Uni's close callback is latched over its MAX_STREAMS executors (C12) ----
+macro_rules! latch_m { ($m:expr, $case:expr) => {{
+    let n = $case.get("n", 4);
+    let cbs = Arc::new(AtomicI64::new(0)); let processed = Arc::new(AtomicI64::new(0)); let at_cb = Arc::new(AtomicI64::new(-1)); let fin_at_cb = Arc::new(AtomicI64::new(-1));
+    let (p1, c1, a1) = (processed.clone(), cbs.clone(), at_cb.clone());
+    let uni = UniMoveFullSync::<u32, 64, $m, METRICS>::new("latch").spawn_futures_executors(2, Duration::ZERO,
+        move |stream| { let p1 = p1.clone(); stream.map(move |i: u32| { let p1 = p1.clone(); async move {
+            tokio::time::sleep(Duration::from_millis(10 + (i as u64 % 3) * 10)).await; p1.fetch_add(1, SeqCst); i } }) },
+        move |_ex| { let (c1, a1, p) = (c1.clone(), a1.clone(), processed.clone()); async move { c1.fetch_add(1, SeqCst); a1.store(p.load(SeqCst), SeqCst); } });
+    for i in 0..n { let _ = uni.send(i as u32); }
+    tokio::time::sleep(Duration::from_millis($case.get("tclose", 0) as u64)).await;
+    let _ = uni.close(Duration::ZERO).await;
+    tokio::time::sleep(Duration::from_millis(1_000_000)).await;
+    fin_at_cb.store(uni.finished_executors_count.load(SeqCst) as i64, SeqCst);
+    vec![2, 0, 79, cbs.load(SeqCst), at_cb.load(SeqCst),  2, 0, 80, fin_at_cb.load(SeqCst), $m,  9]
+}}; }
+pub fn run_latch(case: &Case) -> Vec<i64> {
+    reactive_mutiny::verif::deactivate();
+    let rt = tokio::runtime::Builder::new_current_thread().enable_time().start_paused(true).build().unwrap();
+    rt.block_on(async {
+        match case.get("M", 2) { 1 => latch_m!(1, case), 2 => latch_m!(2, case), 4 => latch_m!(4, case), m => panic!("latch: unsupported M={m}") }
+    })
+}
+
 pub fn run(case: &Case) -> Vec<i64> {
     reactive_mutiny::verif::deactivate();
     let items: Vec<(u64, bool)> = case.progs.get(0).map(|p| p.iter().map(|op| (op.arg(0) as u64, op.arg(1) == 1)).collect()).unwrap_or_default();
